@@ -14,10 +14,6 @@ mod c12;
 mod c16;
 mod common;
 mod digest;
-#[cfg(not(miri))]
-mod kernel;
-#[cfg(miri)]
-#[path = "kernel_stub.rs"]
 mod kernel;
 mod prng;
 mod sets;
